@@ -225,6 +225,7 @@ def run(ctx):
         res.corr_error = ((res.corr_error + "; ") if res.corr_error else "") + \
             ("%d input(s) built as accepted were not accepted (%s); %d example files passed the corpus filter (expected >= %d)"
              % (len(not_accepted), "; ".join(not_accepted[:3]), n_corpus, MIN_CORPUS))
+    res.oracle_violations.sort(key=lambda v: NONBLANK_TAG in v["what"])      # violations outside the known class are reported first
     res.cases = len(cases) + n_explicit
     res.distinct_nontrivial = len(kinds)
     res.rule = ("accepted inputs = the readable/writable ASCII LAS 1.2/2.0 example files plus generated files with odd features "
